@@ -81,6 +81,10 @@ def gen_cases(tier, seed):
         add(variant, 'expec', f'{s1},{s2}', 1, cost=90, singles=True)
         for order in (1, 2):
             add(variant, 'tm', s1, order, cost=20 + 30 * order, singles=True)
+    # third order (the third-order norm factor enters)
+    add('ip', 'expec', 'h,h', 3, cost=60, dims=[2, 2])
+    add('ip', 'tm', 'h', 3, cost=30, dims=[2, 2])
+    add('ea', 'tm', 'p', 3, cost=30, dims=[2, 2])
     for variant in ('dip', 'dea'):
         s1, s2 = spaces_upto(variant, 2)
         add(variant, 'expec', f'{s1},{s1}', 1, cost=40)
